@@ -249,3 +249,111 @@ def run(ctx, F):
         f, ps = mp_paths
         kinds = {v["vi"]: v["name"] for v in F.adts["record::multipatch::Patch"]["variants"]}
         nest_table(f, ps, {"OuterRing", "FirstRing"}, {"InnerRing", "Ring"}, kinds, "multipatch")
+
+
+def tag_rule(ctx, F):
+    """C20.tag: geo-types -> shapefile polygons: the exterior of every member polygon becomes an Outer ring, its interiors Inner
+    rings, member by member, in order."""
+    ctx.rule("C20.tag", "geo-types polygon -> shapefile: the exterior becomes the first ring and is tagged Outer, every interior is tagged "
+                        "Inner and follows in order; a multi-polygon converts each member on its own (so every member's exterior is Outer) "
+                        "and appends the rings in member order", floor=4)
+    imps = [i for i in F.trait_impls("std::convert::From") if i["self_ty"].startswith("record::polygon::GenericPolygon")
+            and "geo_types::" in str(i["trait_args"][1])]
+    single = multi = None
+    for i in imps:
+        a = str(i["trait_args"][1])
+        g = F.fns.get(i["methods"][0]["key"])
+        if a.startswith("geo_types::Polygon"):
+            single = g
+        elif a.startswith("geo_types::MultiPolygon"):
+            multi = g
+    if not single or not multi:
+        ctx.missing("C20.tag", "From<geo_types::Polygon> / From<geo_types::MultiPolygon> for GenericPolygon")
+        return
+
+    def helper_only(g, t):
+        # private helpers are followed; the public constructors and the conversion impls stay calls
+        return g.get("kind") == "Closure" or not (g.get("impl_trait") or g["def"].endswith(("::with_rings", "::new", "::into_inner")))
+
+    def member_tagging(effs, src_pred):
+        """(ok, why): exactly one Outer push built from the exterior of the source, then a loop over its interiors pushing Inner"""
+        pushes = [e for e in effs if e[0] == 'push']
+        loops = [e for e in effs if e[0] == 'loop']
+        if len(pushes) != 1 or not is_agg(pushes[0][2], "record::polygon::PolygonRing", "Outer"):
+            return False, "the exterior is not pushed as one Outer ring"
+        ext = absint.term_str(pushes[0][2])
+        if '.0.0' not in ext or not src_pred(ext):
+            return False, "the Outer ring is not built from the exterior (%s)" % ext[:80]
+        if len(loops) != 1:
+            return False, "%d loops over the interiors" % len(loops)
+        it = absint.term_str(loops[0][2].get('iter'))
+        if not it.startswith('into_iter(') or '.1' not in it or any(w in it for w in ('skip', 'rev', 'take', 'filter')):
+            return False, "interiors are not iterated whole and in order (%s)" % it[:80]
+        for b in loops[0][3]:
+            pu = [e for e in b['eff'] if e[0] == 'push']
+            if len(pu) != 1 or not is_agg(pu[0][2], "record::polygon::PolygonRing", "Inner") or 'elem(' not in absint.term_str(pu[0][2]):
+                return False, "an interior is not pushed as one Inner ring built from the loop's element"
+        k_push = effs.index(pushes[0])
+        k_loop = effs.index(loops[0])
+        if k_push > k_loop:
+            return False, "interiors are pushed before the exterior"
+        return True, "Outer(exterior), then Inner(interior) for each interior in order"
+
+    # single polygon
+    try:
+        ps, _ = util.run_fn(F, single, inline=helper_only)
+    except absint.Unanalysable as e:
+        ctx.unanalysable("C20.tag", "From<geo_types::Polygon>", str(e))
+        ps = []
+    good, why = bool(ps), set()
+    for p in ps:
+        ok, w = member_tagging(list(p.eff), lambda s_: 'into_inner' in s_)
+        good = good and ok
+        why.add(w)
+        calls = [e for e in p.eff if e[0] == 'call' and (e[2] or e[1]).endswith('::with_rings')]
+        if len(calls) != 1 or p.ret != calls[0][-1]:
+            good = False
+            why.add("the result is not with_rings(the rings pushed)")
+    ctx.ob("C20.tag", "polygon: exterior Outer, interiors Inner", good, "; ".join(sorted(why)), site=ctx.site_of(F, single["def"]),
+           key="C20.tag|polygon")
+    # multi polygon
+    try:
+        ps, _ = util.run_fn(F, multi, inline=helper_only)
+    except absint.Unanalysable as e:
+        ctx.unanalysable("C20.tag", "From<geo_types::MultiPolygon>", str(e))
+        ps = []
+    good, why = bool(ps), set()
+    for p in ps:
+        loops = [e for e in p.eff if e[0] == 'loop']
+        if len(loops) != 1:
+            good = False
+            why.add("%d loops over the members" % len(loops))
+            continue
+        it = absint.term_str(loops[0][2].get('iter'))
+        if it != 'into_iter(arg1)' and not (it.startswith('into_iter(') and 'arg1' in it and not any(w in it for w in ('skip', 'rev', 'take', 'filter', 'flat_map', 'chain'))):
+            good = False
+            why.add("members are not iterated whole and in order (%s)" % it[:80])
+        for b in loops[0][3]:
+            effs = list(b['eff'])
+            conv = [e for e in effs if e[0] == 'call' and (e[2] or '') == single["def"] and e[3] and 'elem(' in absint.term_str(e[3][0])]
+            if len(conv) == 1:
+                app = [e for e in effs if e[0] == 'call' and e[1] in ("std::vec::Vec::<T, A>::append", "std::iter::Extend::extend")]
+                if len(app) != 1:
+                    good = False
+                    why.add("the member's rings are not appended once")
+                else:
+                    why.add("each member through the single-polygon conversion, rings appended in order")
+            else:
+                ok, w = member_tagging(effs, lambda s_: 'elem(' in s_)
+                good = good and ok
+                why.add("inline: " + w)
+        calls = [e for e in p.eff if e[0] == 'call' and (e[2] or e[1]).endswith('::with_rings')]
+        if len(calls) != 1 or p.ret != calls[0][-1]:
+            good = False
+            why.add("the result is not with_rings(all rings)")
+    ctx.ob("C20.tag", "multi-polygon: member by member", good, "; ".join(sorted(why)), site=ctx.site_of(F, multi["def"]),
+           key="C20.tag|multipolygon")
+    # the M / Z variants go through the same generic impls (GenericPolygon<PointType>): one instance each is enough
+    for name in ("single", "multi"):
+        ctx.ob("C20.tag", "generic over the point type (%s)" % name, "PointType" in (single if name == "single" else multi)["def"],
+               "one generic impl serves Polygon, PolygonM and PolygonZ", trivial=True)
